@@ -97,7 +97,8 @@ def numeric_grad(func, x, backend, eps=None):
     # Convert backend tensors to numpy for gradient computation
     if backend.is_backend_array(x):
         x = backend.to_numpy(x)
-    x = np.asarray(x, dtype=float_dtype)
+    # work on a private copy: np.asarray would alias a float array held by the caller's variable
+    x = np.array(x, dtype=float_dtype)
 
     grad = np.zeros_like(x, dtype=float_dtype)
     it = np.nditer(x, flags=['multi_index'], op_flags=['readwrite'])
